@@ -1,14 +1,354 @@
 /-
-  Driver.C09 — line protocol front end for property C09 (stub: not built yet).
+  Driver.C09 — line protocol for the iterators.
+
+  Cases (fresh state):
+    @ shape <lens>                         bare ShapeIterator (zero lengths allowed)   → ok
+    @ tensor <shape> <adaptor>*            Tensor with ids 0..n-1 (id = storage offset), then
+         range:<name>.<start>.<len>,…       TensorRange::from            (clipped; rejected if empty)
+         mask:<name>.<start>.<len>,…        TensorMask::from             (clipped; rejected if nothing is left)
+         rename:<names>                     TensorRename::from
+         reverse:<name>,…                   TensorReverse::from
+         access:<names>                     TensorAccess::from
+         transpose:<names>                  TensorTranspose::from
+                                                              → ok shape=<view shape> | reject
+    @ matrix <rows> <cols> <adaptor>*      Matrix with ids 0..n-1
+         range:<rs>.<rl>.<cs>.<cl>          MatrixRange::from (may be empty)
+         reverse:<r|c|rc|->                 MatrixReverse::from
+                                                              → ok size=<rows>x<cols>
+
+  Operations:
+    iter [k=<rowmajor|colmajor|row|col|diag>] [a=<i>] f=<copy|ref|mut|owned> wi=<0|1> n=<calls>
+        one record per call, `;`-separated:  <lower>/<upper>/<len()>:<item>[@<index>]
+        taken as: size_hint(), len(), then next().  `-` = None; items are storage cells (= ids),
+        `P` a placeholder, `UB` an unchecked access outside the source.
+        f=mut appends ` distinct=ok|ALIAS` (all handed out cells pairwise different),
+        f=owned appends ` drops=ok`.
+    left [k=…] n=<calls>
+        owned iteration for n calls, iterator dropped, leaf contents (`P` = placeholder)
+
+  The answer before `##` is computed from the *specification* (Spec/Iter.lean); the code-shaped
+  model's answer follows only if it differs (Props/C09 proves it never does).
 -/
+import EasyMl.Model.Iter
+import EasyMl.Spec.Iter
 import Driver.Parse
 
 namespace Driver.C09
+open EasyMl EasyMl.Iter Driver
 
-abbrev State := Unit
+inductive Src where
+  | none
+  | shape (lens : List Nat)
+  | tensor (names : List String) (src : TSource Nat) (leafLen : Nat)
+  | matrix (src : MSource Nat) (leafLen : Nat)
 
-def init : State := ()
+abbrev State := Src
 
-def step (s : State) (_toks : List String) : State × String := (s, "unimplemented")
+def init : State := .none
+
+def both (spec model : String) : String :=
+  if spec = model then spec else s!"{spec} ## MODEL-SPEC-DISAGREE {model}"
+
+def showIdx (l : List Nat) : String :=
+  if l.isEmpty then "*" else ".".intercalate (l.map toString)
+
+def showPos (p : Nat × Nat) : String := s!"{p.1}.{p.2}"
+
+def showHint : Outcome (Nat × Option Nat) → String
+  | .panic k => s!"panic({k})"
+  | .ok (lo, hi) =>
+    let his := match hi with
+      | some h => toString h
+      | none => "n"
+    let len := match lenOfHint (.ok (lo, hi)) with
+      | .ok n => toString n
+      | .panic k => s!"panic({k})"
+    s!"{lo}/{his}/{len}"
+
+/-- memory of the leaf: `some id` an original value, `none` a placeholder -/
+abbrev Mem := Nat → Option Nat
+
+def mem0 : Mem := fun c => some c
+
+def showVal : Option (Option Nat) → String
+  | none => "UB"
+  | some none => "P"
+  | some (some v) => toString v
+
+inductive Flavour where
+  | copy | ref | mut | owned
+  deriving DecidableEq
+
+def parseFlavour : String → Option Flavour
+  | "copy" => some .copy | "ref" => some .ref | "mut" => some .mut | "owned" => some .owned
+  | _ => none
+
+section Generic
+variable {σ π : Type}
+
+/-- one call of `next` of the chosen flavour; the item is shown as a string, the resolved cell
+    is returned as well (for the distinctness check of `f=mut`) -/
+def flavourNext (f : Flavour) (next : σ → Outcome (Option π × σ)) (cell : π → Option Nat)
+    (st : σ × Mem) : Outcome (Option (Option (Option Nat)) × (σ × Mem)) :=
+  match f with
+  | .copy =>
+    match copyNext next cell st.2 st.1 with
+    | .panic k => .panic k
+    | .ok (x, s') => .ok (x, (s', st.2))
+  | .ref | .mut =>
+    match refNext next cell st.1 with
+    | .panic k => .panic k
+    | .ok (x, s') => .ok (x.map fun c => c.map fun c => st.2 c, (s', st.2))
+  | .owned => ownedNext next cell none st
+
+/-- the records of `n` calls by the code-shaped model -/
+def modelRecords (f : Flavour) (wi : Bool) (next : σ → Outcome (Option π × σ))
+    (hint : σ → Outcome (Nat × Option Nat)) (counter : σ → π) (cell : π → Option Nat)
+    (showP : π → String) : Nat → σ × Mem → List String × List (Option (Option Nat)) × (σ × Mem)
+  | 0, st => ([], [], st)
+  | n + 1, st =>
+    let h := showHint (hint st.1)
+    let stepped : Outcome (Option (String × Option (Option Nat)) × (σ × Mem)) :=
+      if wi then
+        match withIndexNext (fun (s : σ × Mem) => counter s.1) (flavourNext f next cell) st with
+        | .panic k => .panic k
+        | .ok (none, st') => .ok (none, st')
+        | .ok (some (i, v), st') => .ok (some (s!"{showVal v}@{showP i}", v), st')
+      else
+        match flavourNext f next cell st with
+        | .panic k => .panic k
+        | .ok (none, st') => .ok (none, st')
+        | .ok (some v, st') => .ok (some (showVal v, v), st')
+    match stepped with
+    | .panic k => ([s!"{h}:panic({k})"], [], st)
+    | .ok (none, st') =>
+      let r := modelRecords f wi next hint counter cell showP n st'
+      (s!"{h}:-" :: r.1, r.2.1, r.2.2)
+    | .ok (some (item, v), st') =>
+      let r := modelRecords f wi next hint counter cell showP n st'
+      (s!"{h}:{item}" :: r.1, v :: r.2.1, r.2.2)
+
+/-- the records demanded by the specification: `item k` is the `k`-th position -/
+def specRecords (wi : Bool) (total : Nat) (item : Nat → Option π) (cell : π → Option Nat)
+    (showP : π → String) (n : Nat) : List String :=
+  (List.range n).map fun k =>
+    let rem := Spec.remaining total k
+    let it := match item k with
+      | none => "-"
+      | some p =>
+        let v := match cell p with
+          | some c => toString c
+          | none => "UB"
+        if wi then s!"{v}@{showP p}" else v
+    s!"{rem}/{rem}/{rem}:{it}"
+
+def nodup : List (Option (Option Nat)) → Bool
+  | [] => true
+  | x :: xs => !(xs.contains x) && nodup xs
+
+def showLeft (mem : Mem) (leafLen : Nat) : String :=
+  "left=" ++ showNats' ((List.range leafLen).map fun o => match mem o with
+    | some v => toString v
+    | none => "P")
+where showNats' (l : List String) : String := if l.isEmpty then "-" else ",".intercalate l
+
+/-- answer of an `iter` / `left` operation for any position iterator -/
+def answer (op : String) (f : Flavour) (wi : Bool) (n leafLen total : Nat)
+    (next : σ → Outcome (Option π × σ)) (hint : σ → Outcome (Nat × Option Nat))
+    (counter : σ → π) (cell : π → Option Nat) (item : Nat → Option π) (showP : π → String)
+    (s0 : σ) : String :=
+  let m := modelRecords f wi next hint counter cell showP n (s0, mem0)
+  if op = "left" then
+    let visited := (List.range n).filterMap fun k => (item k).bind cell
+    let specMem : Mem := fun o => if visited.contains o then none else some o
+    both (showLeft specMem leafLen) (showLeft m.2.2.2 leafLen)
+  else
+    let tail (distinct : Bool) : String :=
+      match f with
+      | .mut => if distinct then " distinct=ok" else " distinct=ALIAS"
+      | .owned => " drops=ok"
+      | _ => ""
+    let spec := ";".intercalate (specRecords wi total item cell showP n) ++ tail true
+    let model := ";".intercalate m.1 ++ tail (nodup m.2.1)
+    both spec model
+
+end Generic
+
+/-! ### building sources -/
+
+def parseDotted (s : String) : List String := s.splitOn "."
+
+def applyTensorAdaptor (names : List String) (src : TSource Nat) (tok : String) :
+    Option (List String × TSource Nat) :=
+  match tok.splitOn ":" with
+  | ["range", spec] =>
+    -- from_named_to_all, then clip, then the no-zero-length validation
+    let parts := (splitComma spec).map parseDotted
+    let parsed : Option (List (String × Nat × Nat)) := parts.mapM fun p =>
+      match p with
+      | [n, s, l] => match s.toNat?, l.toNat? with
+        | some s, some l => some (n, s, l)
+        | _, _ => none
+      | _ => none
+    match parsed with
+    | none => none
+    | some rs =>
+      if rs.any (fun r => !names.contains r.1) then none else
+      let ranges := (List.zip names src.shape).map fun (nm, len) =>
+        match rs.reverse.find? (fun r => r.1 = nm) with
+        | some (_, s, l) => (s, clipLength s l len)
+        | none => (0, clipLength 0 len len)
+      if ranges.any (fun r => r.2 == 0) then none
+      else some (names, src.range ranges)
+  | ["mask", spec] =>
+    let parts := (splitComma spec).map parseDotted
+    let parsed : Option (List (String × Nat × Nat)) := parts.mapM fun p =>
+      match p with
+      | [n, s, l] => match s.toNat?, l.toNat? with
+        | some s, some l => some (n, s, l)
+        | _, _ => none
+      | _ => none
+    match parsed with
+    | none => none
+    | some ms =>
+      if ms.any (fun r => !names.contains r.1) then none else
+      let masks := (List.zip names src.shape).map fun (nm, len) =>
+        match ms.reverse.find? (fun r => r.1 = nm) with
+        | some (_, s, l) => (s, clipLength s l len)
+        | none => (0, 0)
+      let masked := src.mask masks
+      if masked.shape.any (fun l => l == 0) then none else some (names, masked)
+  | ["rename", spec] =>
+    let newNames := splitComma spec
+    if hasDuplicates newNames || newNames.length ≠ names.length then none
+    else some (newNames, src)
+  | ["reverse", spec] =>
+    let rev := splitComma spec
+    if hasDuplicates rev || rev.any (fun r => !names.contains r) then none
+    else some (names, src.reverse (names.map fun n => rev.contains n))
+  | [kind, spec] =>
+    if kind = "access" || kind = "transpose" then
+      let req := splitComma spec
+      match DimensionMappings.new (List.zip names src.shape) req with
+      | none => none
+      | some m => some (if kind = "access" then req else names, src.access m)
+    else none
+  | _ => none
+
+def applyMatrixAdaptor (src : MSource Nat) (tok : String) : Option (MSource Nat) :=
+  match tok.splitOn ":" with
+  | ["range", spec] =>
+    match (parseDotted spec).mapM String.toNat? with
+    | some [rs, rl, cs, cl] => some (src.range rs rl cs cl)
+    | _ => none
+  | ["reverse", spec] => some (src.reverse (spec.contains 'r') (spec.contains 'c'))
+  | _ => none
+
+/-! ### operations -/
+
+def natArg (key : String) (toks : List String) (dflt : Nat) : Nat :=
+  ((optArg key toks).bind String.toNat?).getD dflt
+
+def shapeIterAnswer (lens : List Nat) (n : Nat) : String :=
+  -- bare ShapeIterator: the item is the index itself
+  let rec modelRecs : Nat → ShapeIter → ShapeIter → List String
+    | 0, _, _ => []
+    | k + 1, it, itL =>
+      let h := showHint it.sizeHint
+      let r := it.next
+      let rL := itL.nextLoop
+      let agree := if r.1 == rL.1 && r.2 == rL.2 then "" else "!LOOP-MODEL-DISAGREE"
+      s!"{h}:{(r.1.map showIdx).getD "-"}{agree}" :: modelRecs k r.2 rL.2
+  -- a product beyond usize cannot be reported as a length: the specification only speaks
+  -- about shapes whose element count fits (see Props/C09 `shapeIter_len`)
+  let total := prod lens
+  let specRecs := (List.range n).map fun k =>
+    let rem := Spec.remaining total k
+    s!"{rem}/{rem}/{rem}:{((Spec.shapeItem lens k).map showIdx).getD "-"}"
+  let model := ";".intercalate (modelRecs n (ShapeIter.new lens) (ShapeIter.new lens))
+  if total ≤ usizeMax then both (";".intercalate specRecs) model
+  else s!"unrepresentable-length ## {model}"
+
+def matrixAnswer (op : String) (src : MSource Nat) (leafLen : Nat) (toks : List String) : String :=
+  let kind := (optArg "k" toks).getD "rowmajor"
+  let a := natArg "a" toks 0
+  let n := natArg "n" toks 0
+  let wi := (optArg "wi" toks) == some "1"
+  match parseFlavour ((optArg "f" toks).getD (if op = "left" then "owned" else "copy")) with
+  | none => "bad-op"
+  | some f =>
+    let counterM (it : MatIter) : Nat × Nat := (it.rowCounter, it.columnCounter)
+    let counterL (it : LineIter) : Nat × Nat := it.line.position it.range.start
+    match kind with
+    | "rowmajor" =>
+      answer op f wi n leafLen (src.rows * src.columns) rowMajorNext rowMajorSizeHint counterM
+        src.cell (Spec.rowMajorItem src.rows src.columns) showPos (MatIter.new src.rows src.columns)
+    | "colmajor" =>
+      answer op f wi n leafLen (src.rows * src.columns) colMajorNext colMajorSizeHint counterM
+        src.cell (Spec.colMajorItem src.rows src.columns) showPos (MatIter.new src.rows src.columns)
+    | "row" =>
+      match LineIter.newRow src.rows src.columns a with
+      | .panic k => s!"panic({k})"
+      | .ok it =>
+        answer op f false n leafLen src.columns lineNext (fun it => .ok it.sizeHint) counterL
+          src.cell (Spec.rowItem src.columns a) showPos it
+    | "col" =>
+      match LineIter.newColumn src.rows src.columns a with
+      | .panic k => s!"panic({k})"
+      | .ok it =>
+        answer op f false n leafLen src.rows lineNext (fun it => .ok it.sizeHint) counterL
+          src.cell (Spec.columnItem src.rows a) showPos it
+    | "diag" =>
+      answer op f false n leafLen (min src.rows src.columns) lineNext (fun it => .ok it.sizeHint)
+        counterL src.cell (Spec.diagonalItem src.rows src.columns) showPos
+        (LineIter.newDiagonal src.rows src.columns)
+    | _ => "bad-op"
+
+def tensorAnswer (op : String) (src : TSource Nat) (leafLen : Nat) (toks : List String) : String :=
+  let n := natArg "n" toks 0
+  let wi := (optArg "wi" toks) == some "1"
+  match parseFlavour ((optArg "f" toks).getD (if op = "left" then "owned" else "copy")) with
+  | none => "bad-op"
+  | some f =>
+    answer op f wi n leafLen (prod src.shape) shapeNext (fun it => it.sizeHint) (·.indexes)
+      src.cell (Spec.shapeItem src.shape) showIdx (ShapeIter.new src.shape)
+
+def step (s : State) (toks : List String) : State × String :=
+  match toks with
+  | ["@", "shape", lensS] =>
+    match parseNatList lensS with
+    | some lens => (.shape lens, "ok")
+    | none => (.none, "bad-op")
+  | "@" :: "tensor" :: shapeS :: adaptors =>
+    match parseShape shapeS with
+    | none => (.none, "bad-op")
+    | some shape =>
+      let n := elements shape
+      match Tensor.tryFrom shape (List.range n) with
+      | none => (.none, "reject")
+      | some t =>
+        let start : Option (List String × TSource Nat) := some (shape.map (·.1), TSource.ofTensor t)
+        let r := adaptors.foldl (fun acc tok => acc.bind fun (nm, src) => applyTensorAdaptor nm src tok) start
+        match r with
+        | none => (.none, "reject")
+        | some (names, src) =>
+          (.tensor names src n, s!"ok shape={showShape (List.zip names src.shape)}")
+  | "@" :: "matrix" :: rowsS :: colsS :: adaptors =>
+    match rowsS.toNat?, colsS.toNat? with
+    | some rows, some cols =>
+      let start : Option (MSource Nat) := some (MSource.ofMatrix rows cols)
+      match adaptors.foldl (fun acc tok => acc.bind fun src => applyMatrixAdaptor src tok) start with
+      | none => (.none, "bad-op")
+      | some src => (.matrix src (rows * cols), s!"ok size={src.rows}x{src.columns}")
+    | _, _ => (.none, "bad-op")
+  | op :: rest =>
+    if op = "iter" || op = "left" then
+      match s with
+      | .none => (s, "no-source")
+      | .shape lens => (s, shapeIterAnswer lens (natArg "n" rest 0))
+      | .tensor _ src leafLen => (s, tensorAnswer op src leafLen rest)
+      | .matrix src leafLen => (s, matrixAnswer op src leafLen rest)
+    else (s, "bad-op")
+  | _ => (s, "bad-op")
 
 end Driver.C09
